@@ -8,11 +8,16 @@ MODS = {"distance3d.colliders", "distance3d.mesh"}
 
 
 def run(idx, rep, tier):
-    rep.set_scope(scopes.scope(idx, "C14"))
+    # the property is observed through queries: the functions that are handed a collider and read its state belong to the scope too
+    QUERY_MODS = [m.name for m in idx.lib_modules() if m.name.startswith(("distance3d.gjk", "distance3d.mpr", "distance3d.epa", "distance3d.broad_phase",
+                                                                             "distance3d.self_collision", "distance3d.colliders", "distance3d.mesh"))]
+    sc = dict(scopes.scope(idx, "C14"))
+    sc.update(purity.collider_readers(idx, QUERY_MODS))
+    rep.set_scope(sc)
     rep.explanation = (
         "R-COHERENCE: per class with a non-raising update_pose, every attribute whose constructor value depends on the "
         "pose-carrying constructor parameters is refreshed (stored, recomputed with the constructor's own expression, or "
-        "delegated). Pose-independent attributes are not reassigned by update_pose. R-QUERYSTATE: query-written state is only a search hint. R-ROUNDTRIP: pose-less shapes read each attribute from the pose slot that collider2origin writes. "
+        "delegated). Pose-independent attributes are not reassigned by update_pose. R-QUERYSTATE: query-written state is only a search hint. R-UNTOUCHED: no query function modifies the state of a collider it is handed, directly or through an aliasing name (np.asarray, views). R-ROUNDTRIP: pose-less shapes read each attribute from the pose slot that collider2origin writes. "
         "R-EAGER (engine E1, abstract interpretation of array ndim/dtype/layout with a join over every assignment of each "
         "attribute): every call from a collider method into a compiled function with an explicit signature is accepted for "
         "all values the attributes can hold after the constructor or update_pose with a C-contiguous pose. "
@@ -24,6 +29,7 @@ def run(idx, rep, tier):
     colliders.r_querystate(idx, rep)
     eager.r_eager(idx, rep, it, caller_filter=lambda f: f.module.name in MODS, floor=15, unknown_ceiling=2)
     purity.r_pureargs(idx, rep, ["distance3d.colliders", "distance3d.geometry", "distance3d.mesh", "distance3d.utils"], floor=20)
+    purity.r_untouched(idx, rep, QUERY_MODS, floor=6)
     misc2.r_adjacency(idx, rep)
     misc2.r_dupcond(idx, rep, [m.name for m in idx.lib_modules()], floor=3)
     misc2.r_shortcuts(idx, rep)
